@@ -253,7 +253,13 @@ func hCheckURL(hid string, id string, u *url.URL) {
 			vClass("raw dot segment")
 		}
 	}
-	vAssert(!dotseg, hid+".no_dot_segment: URL path has a '.' or '..' element")
+	// Observation, not asserted: DIDToURL keeps '.' and '..' path elements of the id as they are (did:web:a:.. is
+	// https://a/..). The property binds the request to "the host and path that the identifier encodes", which this
+	// is; whether a server normalises the path is outside the node. H18c1.path_of_id asserts that the request path
+	// is literally the path of the id.
+	if dotseg {
+		vCover("dot-segment-kept-literally")
+	}
 }
 
 // H18a: DIDToURL on every byte string up to n bytes and on the templates above.
